@@ -287,8 +287,11 @@ fn c18_pptt_oversize_processor_node_refused() {
 #[test]
 fn c12_hmat_non_square_matrix_row_major() {
     use acpi_tables::hmat::*;
-    for (ni, nt) in [(1usize, 3usize), (3, 1), (2, 3), (3, 2), (2, 2)] {
-        let mut s = SystemLocality::new(LocalityType::Memory, DataType::AccessLatency, MinTransferSize::SizeByteAligned, 100, ni, nt);
+    let dts = [DataType::AccessLatency, DataType::ReadLatency, DataType::WriteLatency, DataType::AccessBandwidth, DataType::ReadBandwidth, DataType::WriteBandwidth];
+    for (n, (ni, nt)) in [(1usize, 3usize), (3, 1), (2, 3), (3, 2), (2, 2), (4, 1), (1, 1), (2, 4), (5, 3), (3, 5), (4, 4), (1, 6)].into_iter().enumerate() {
+        let dt = dts[n % 6];
+        let mut s = SystemLocality::new(LocalityType::Memory, dt, MinTransferSize::SizeByteAligned, 100, ni, nt);
+        assert_eq!(ser(&s)[9], n as u8 % 6, "data type byte");
         let mut model = vec![0xffffu16; ni * nt];
         for i in 0..ni {
             for j in 0..nt {
@@ -352,6 +355,32 @@ fn c03_cedt_records_are_self_describing() {
     let b = ser(&t);
     check_table("CEDT+RDPAS+CHBS", &b);
     walk_cedt("CEDT+RDPAS+CHBS", &b, &[3, 0]);
+    // every interleave arity (the encodings are not monotone: 3/6/12 ways are codes 8/9/10), XOR maps
+    let ways = [(InterleaveWays::Ways1, 1usize, 0u8), (InterleaveWays::Ways2, 2, 1), (InterleaveWays::Ways4, 4, 2), (InterleaveWays::Ways8, 8, 3),
+                (InterleaveWays::Ways16, 16, 4), (InterleaveWays::Ways3, 3, 8), (InterleaveWays::Ways6, 6, 9), (InterleaveWays::Ways12, 12, 10)];
+    let mut t = CEDT::new(*b"FOOBAR", *b"DECAFCOF", 1);
+    let mut types = Vec::new();
+    for (n, (w, cnt, code)) in ways.into_iter().enumerate() {
+        let mut f = CxlFixedMemory::new(0x1_0000_0000 * n as u64, 0x1000_0000, InterleaveArithmetic::Modulo, InterleaveGranularity::Granularity256b, w, n as u16);
+        for k in 0..cnt { f.add_target([b'H', b'B', b'0' + n as u8, b'a' + k as u8]); }
+        let fb = ser(&f);
+        assert_eq!(fb.len(), 0x24 + 4 * cnt, "CFMWS with {} targets: emitted size", cnt);
+        assert_eq!(le16_at(&fb, 2) as usize, fb.len(), "CFMWS with {} targets: record length", cnt);
+        assert_eq!(fb[0x18], code, "CFMWS interleave ways code");
+        t.add_fixed_memory(f);
+        types.push(1u8);
+        let mut x = XorInterleaveMath::new(InterleaveGranularity::Granularity256b);
+        for k in 0..(n * 37 % 256) { x.add_xormap(k as u64 * 0x0101_0101); }
+        let xb = ser(&x);
+        assert_eq!(le16_at(&xb, 2) as usize, xb.len(), "CXIMS record length");
+        assert_eq!(xb[7] as usize, n * 37 % 256, "CXIMS bitmap count");
+        assert_eq!(xb.len(), 8 + 8 * (n * 37 % 256));
+        t.add_xor_interleave_math(x);
+        types.push(2u8);
+        let b = ser(&t);
+        check_table("CEDT history", &b);
+        walk_cedt("CEDT history", &b, &types);
+    }
 }
 #[test]
 fn c11_cedt_window_restriction_bits_are_distinct() {
@@ -572,6 +601,36 @@ fn c07_pkg_length_framing_at_boundaries() {
         }
     }
 }
+/// C07/C06: field lists -- every Named/Reserved width (exclusive PkgLength form) at the width
+/// boundaries, parsed back entry by entry; the Field's own PkgLength covers exactly the list
+#[test]
+fn c07_field_widths_at_boundaries() {
+    let widths: Vec<usize> = (0..=70).chain(4090..=4100).chain((1 << 20) - 3..(1 << 20) + 3).chain([(1 << 28) - 1]).collect();
+    for (n, w) in widths.iter().enumerate() {
+        let entries = vec![FieldEntry::Named(*b"FLD0", *w), FieldEntry::Reserved(*w), FieldEntry::Named(*b"FLD1", 1), FieldEntry::Reserved(widths[(n * 7) % widths.len()]), FieldEntry::Named(*b"FLD2", *w)];
+        let f = Field::new("REGN".into(), FieldAccessType::DWord, FieldLockRule::Lock, FieldUpdateRule::WriteAsOnes, entries.clone());
+        let b = ser(&f);
+        assert_eq!((b[0], b[1]), (0x5b, 0x81));
+        let (len, pw) = pkg_decode(&b[2..]);
+        assert_eq!(len, b.len() - 2, "Field PkgLength with entry width {}", w);
+        let mut o = 2 + pw;
+        assert_eq!(&b[o..o + 4], b"REGN"); o += 4;
+        assert_eq!(b[o], 3 | (1 << 4) | (1 << 5), "field flags"); o += 1;
+        for e in &entries {
+            let want = match e {
+                FieldEntry::Named(name, l) => { assert_eq!(&b[o..o + 4], &name[..], "NamedField name at {} (width {})", o, w); o += 4; *l }
+                FieldEntry::Reserved(l) => { assert_eq!(b[o], 0, "ReservedField marker at {} (width {})", o, w); o += 1; *l }
+            };
+            let follow = (b[o] >> 6) as usize;
+            assert!(o + 1 + follow <= b.len(), "PkgLeadByte {:#x} at {} announces {} follow byte(s) that are not present (width {})", b[o], o, follow, want);
+            let (got, gw) = pkg_decode(&b[o..]);
+            assert_eq!(got, want, "field width {} decodes to {}", want, got);
+            if gw > 1 { assert_eq!(b[o] & 0x30, 0, "reserved bits of the lead byte (width {})", want); }
+            o += gw;
+        }
+        assert_eq!(o, b.len(), "field list consumed exactly");
+    }
+}
 #[test]
 fn c15_package_builder_equals_package() {
     for n in 0..=200usize {
@@ -588,7 +647,7 @@ fn c15_package_builder_equals_package() {
 // ---- C10: resource descriptors and templates
 #[test]
 fn c10_resource_templates_reference() {
-    for n in (0..=40usize).chain([5461, 5462, 7281, 7282]) {
+    for n in (0..=40usize).chain([5461, 5462, 7281, 7282]).chain(8186..=8194) {
         let ios: Vec<IO> = (0..n).map(|i| IO::new(0x100 + i as u16, 0x3f8 + 257 * (i as u16 % 7), 8, 4)).collect();
         let mems: Vec<Memory32Fixed> = (0..n % 3).map(|i| Memory32Fixed::new(i % 2 == 0, 0x8000_0000 + i as u32, 0xffff_fff0)).collect();
         let mut kids: Vec<&dyn Aml> = ios.iter().map(|e| e as &dyn Aml).collect();
@@ -618,8 +677,42 @@ fn c10_resource_templates_reference() {
         }
         assert_eq!(&b[o..], &[0x79, 0x00]);
     }
+    // every payload length around the BufferSize width changes (ByteConst/WordConst/DWordConst),
+    // inside a Device and followed by a sibling so that a mis-framed Buffer is seen from outside
+    for payload in (2usize..=20).chain(245..=270).chain(65525..=65545) {
+        let k = (payload - 2) % 8;                  // 9-byte Interrupt descriptors
+        if 9 * k > payload - 2 { continue; }
+        let m = (payload - 2 - 9 * k) / 8;          // 8-byte IO descriptors
+        let irqs: Vec<Interrupt> = (0..k).map(|i| Interrupt::new(true, i % 2 == 0, false, i % 3 == 0, 32 + i as u32)).collect();
+        let ios: Vec<IO> = (0..m).map(|i| IO::new(i as u16, i as u16, 1, 1)).collect();
+        let mut kids: Vec<&dyn Aml> = irqs.iter().map(|e| e as &dyn Aml).collect();
+        for e in &ios { kids.push(e); }
+        let rt = ResourceTemplate::new(kids);
+        let b = ser(&rt);
+        assert_eq!(b[0], 0x11);
+        let (len, w) = pkg_decode(&b[1..]);
+        assert_eq!(len, b.len() - 1, "template payload {}: PkgLength decodes to {}, Buffer spans {}", payload, len, b.len() - 1);
+        let size = ref_int(payload as u64);
+        assert_eq!(&b[1 + w..1 + w + size.len()], &size[..], "template payload {}: BufferSize", payload);
+        assert_eq!(b.len(), 1 + w + size.len() + payload, "template payload {}: total", payload);
+        assert_eq!(&b[b.len() - 2..], &[0x79, 0x00]);
+        let crs = Name::new("_CRS".into(), &rt);
+        let uid = Name::new("_UID".into(), &7u8);
+        let d = ser(&Device::new("DEV0".into(), vec![&crs, &uid]));
+        let (dl, dw) = pkg_decode(&d[1 + 1..]);
+        assert_eq!(d[0], 0x5b); assert_eq!(d[1], 0x82);
+        assert_eq!(dl, d.len() - 2, "Device PkgLength with template payload {}", payload);
+        let tail = ser(&uid);
+        assert_eq!(&d[d.len() - tail.len()..], &tail[..], "sibling after the template (payload {})", payload);
+        assert_eq!(d.len(), 2 + dw + 4 + ser(&crs).len() + tail.len());
+    }
     let b = ser(&Interrupt::new(true, false, true, false, 0x1234_5678));
     assert_eq!(b, vec![0x89, 6, 0, 0b0101, 1, 0x78, 0x56, 0x34, 0x12]);
+    for bits in 0..16u8 {
+        let (c, e, l, sh) = (bits & 1 != 0, bits & 2 != 0, bits & 4 != 0, bits & 8 != 0);
+        let b = ser(&Interrupt::new(c, e, l, sh, 0xdead_beef));
+        assert_eq!(b, vec![0x89, 6, 0, (c as u8) | (e as u8) << 1 | (l as u8) << 2 | (sh as u8) << 3, 1, 0xef, 0xbe, 0xad, 0xde], "Interrupt flags {:04b}", bits);
+    }
     let b = ser(&AddressSpace::<u64>::new_memory(AddressSpaceCacheable::PreFetchable, true, 0x1_0000_0000, 0x1_ffff_ffff, Some(5)));
     assert_eq!(b[0], 0x8a); assert_eq!(le16_at(&b, 1) as usize, b.len() - 3); assert_eq!(b[3], 0); assert_eq!(b[4], 0x0c); assert_eq!(b[5], 7);
     assert_eq!(le64_at(&b, 14), 0x1_0000_0000); assert_eq!(le64_at(&b, 22), 0x1_ffff_ffff); assert_eq!(le64_at(&b, 30), 5); assert_eq!(le64_at(&b, 38), 0x1_0000_0000);
@@ -711,6 +804,47 @@ fn c13_generic_table_vector_model() {
         assert_eq!(t.as_slice(), &before[..]); assert_eq!(t.len(), n); let _ = step;
     }
 }
+/// C14: for every structure that can be added to a table through its raw in-memory form, that raw
+/// form equals its serialised form, and u8sum equals the sum of the serialised bytes
+#[test]
+fn c14_raw_form_equals_serialised() {
+    use acpi_tables::{hest, hmat, madt, srat, u8sum};
+    use zerocopy::IntoBytes;
+    macro_rules! same { ($name:expr, $v:expr) => {{
+        let v = $v;
+        let b = ser(&v);
+        assert_eq!(v.as_bytes(), &b[..], "{}: raw in-memory form vs serialised form", $name);
+        assert_eq!(u8sum(&v), bsum(&b), "{}: u8sum", $name);
+        let mut s = ByteOnly(Vec::new());
+        v.to_aml_bytes(&mut s);
+        assert_eq!(s.0, b, "{}: byte-only sink", $name);
+    }}; }
+    for en in [hest::EnabledStatus::Disabled, hest::EnabledStatus::Enabled] {
+        same!("GHES (default notification)", hest::GenericHardwareSource::new(0x1234, en));
+        same!("GHES (explicit notification)", hest::GenericHardwareSource::new(7, en).notification(hest::NotificationStructure::new(hest::NotificationType::Sci)).max_sections(3).error_status_block_len(0x1000));
+        same!("GHESv2 (default notification)", hest::GenericHardwareSourceV2::new(0xfffe, en));
+        same!("GHESv2 (explicit notification)", hest::GenericHardwareSourceV2::new(9, en).notification(hest::NotificationStructure::new(hest::NotificationType::ExternalGsiv)));
+    }
+    same!("notification (polled)", hest::NotificationStructure::new(hest::NotificationType::Polled));
+    same!("AER root port (global)", hest::PcieAerRootPort::new_global());
+    same!("AER root port", hest::PcieAerRootPort::new_root_port(hest::FirmwareFirst::Enabled, hest::PciDevice::new(0xfe, 31, 7)));
+    same!("AER device (global)", hest::PcieAerDevice::new_global());
+    same!("AER bridge (global)", hest::PcieAerBridge::new_global());
+    same!("AER bridge", hest::PcieAerBridge::new_bridge(hest::FirmwareFirst::Disabled, hest::PciDevice::new(1, 2, 3)));
+    same!("HMAT proximity domain", hmat::MemoryProximityDomain::new(0xdead_beef, 0x0102_0304));
+    same!("LAPIC", madt::ProcessorLocalApic::new(0xfe, 0x7f, madt::EnabledStatus::DisabledOnlineCapable));
+    same!("IOAPIC", madt::IoApic::new(3, 0xfec0_0000, 0x0000_0100));
+    same!("GICC", madt::Gicc::new(madt::EnabledStatus::Enabled).mpidr(0x8000_0001).overflow_interrupt(7));
+    same!("GICD", madt::Gicd::new(1, 0x0800_0000, madt::GicVersion::GICv3));
+    same!("GIC MSI", madt::GicMsi::new());
+    same!("GICR", madt::Gicr::new(0x080a_0000, 0x00f6_0000));
+    same!("GIC ITS", madt::GicIts::new(2, 0x0808_0000));
+    same!("RINTC", madt::RINTC::new(madt::HartStatus::OnlineCapable, u64::MAX - 1, 0x0102_0304, 0xfffe_fdfc, 0x2800_0000, 0x1000));
+    same!("IMSIC", madt::IMSIC::new(255, 63, 1, 2, 3, 24));
+    same!("APLIC", madt::APLIC::new(1, *b"RSCV0002", 4, 0x60, 0xd00_0000, 0x8000, 96));
+    same!("PLIC", madt::PLIC::new(1, *b"RSCV0001", 96, 7, 0x60_0000, 0xc00_0000, 0));
+    same!("SRAT RINTC affinity", srat::RintcAffinity::new(*b"\x01\x02\x03\x04", 0x0a0b_0c0d));
+}
 struct ByteOnly(Vec<u8>);
 impl AmlSink for ByteOnly { fn byte(&mut self, b: u8) { self.0.push(b) } }
 #[test]
@@ -732,6 +866,40 @@ fn c14_sinks_agree() {
         let p = ser(&pb);
         assert_eq!(&p[p.len() - v.len()..], &v[..], "package-builder sink");
     }
+    // every primitive of every sink, on values whose bytes differ and whose byte sums carry
+    struct Prims(u8, u16, u32, u64, Vec<u8>);
+    impl Aml for Prims {
+        fn to_aml_bytes(&self, sink: &mut dyn AmlSink) {
+            sink.byte(self.0); sink.word(self.1); sink.dword(self.2); sink.qword(self.3); sink.vec(&self.4);
+            sink.qword(self.3); sink.dword(self.2); sink.word(self.1); sink.byte(self.0);
+        }
+    }
+    let words = [0u16, 1, 0xff, 0x100, 0x80ff, 0xff80, 0xffff, 0x1234];
+    let dwords = [0u32, 0x00ff_00ff, 0x0080_0080, 0xdead_beef, 0x80f0_80f0, 0xffff_ffff, 0x0102_0304, 0xff00_ff00];
+    let qwords = [0u64, 0x0000_0001_0000_0000, 0x1122_3344_5566_7788, 0xffff_ffff_0000_0000, 0x00ff_00ff_00ff_00ff, u64::MAX, 0x8000_0000_0000_0001, 0xdead_beef_cafe_f00d];
+    for i in 0..8usize {
+        for j in 0..8usize {
+            let pr = Prims((37 * i + j) as u8 ^ 0xa5, words[i], dwords[j], qwords[(i + j) % 8], (0..(i * 41 + j)).map(|k| (k * 7 + 0x80) as u8).collect());
+            let mut reference = ByteOnly(Vec::new());
+            pr.to_aml_bytes(&mut reference);
+            let mut expect = vec![pr.0];
+            expect.extend_from_slice(&pr.1.to_le_bytes()); expect.extend_from_slice(&pr.2.to_le_bytes()); expect.extend_from_slice(&pr.3.to_le_bytes());
+            expect.extend_from_slice(&pr.4);
+            expect.extend_from_slice(&pr.3.to_le_bytes()); expect.extend_from_slice(&pr.2.to_le_bytes()); expect.extend_from_slice(&pr.1.to_le_bytes()); expect.push(pr.0);
+            assert_eq!(reference.0, expect, "default word/dword/qword/vec are little-endian byte sequences");
+            assert_eq!(ser(&pr), expect, "Vec<u8> sink primitives");
+            assert_eq!(u8sum(&pr), bsum(&expect), "Checksum sink primitives ({:#x} {:#x} {:#x})", pr.1, pr.2, pr.3);
+            let mut pb = PackageBuilder::new();
+            pb.add_element(&pr);
+            let p = ser(&pb);
+            assert_eq!(&p[p.len() - expect.len()..], &expect[..], "PackageBuilder sink primitives");
+            let mut t = acpi_tables::sdt::Sdt::new(*b"TEST", 36, 1, *b"FOOBAR", *b"DECAFCOF", 1);
+            pr.to_aml_bytes(&mut t);
+            assert_eq!(&t.as_slice()[36..], &expect[..], "Sdt sink primitives");
+            assert_eq!(bsum(t.as_slice()), 0, "Sdt sink keeps the sum");
+            assert_eq!(le32_at(t.as_slice(), 4) as usize, t.len(), "Sdt sink keeps Length");
+        }
+    }
 }
 
 // =======================================================================================
@@ -741,14 +909,22 @@ const OEM: [u8; 6] = *b"FOOBAR";
 const TBL: [u8; 8] = *b"DECAFCOF";
 
 #[test]
-fn c01_table_histories_checksum_and_length() {
+fn c01_history_xsdt() {
     use acpi_tables::*;
     let mut t = xsdt::XSDT::new(OEM, TBL, 1);
     check_table("XSDT(new)", &ser(&t));
     for i in 0..300u64 { t.add_entry(0x1000 * i + (i << 40)); check_table("XSDT", &ser(&t)); }
+}
+#[test]
+fn c01_history_mcfg() {
+    use acpi_tables::*;
     let mut t = mcfg::MCFG::new(OEM, TBL, 1);
     check_table("MCFG(new)", &ser(&t));
     for i in 0..300u64 { t.add_ecam(i << 28, i as u16, 0, (i % 256) as u8); check_table("MCFG", &ser(&t)); }
+}
+#[test]
+fn c01_history_madt() {
+    use acpi_tables::*;
     let mut t = madt::MADT::new(OEM, TBL, 1, madt::LocalInterruptController::Address(0xfee0_0000));
     check_table("MADT(new)", &ser(&t));
     for i in 0..300u32 {
@@ -760,6 +936,10 @@ fn c01_table_histories_checksum_and_length() {
         }
         check_table("MADT", &ser(&t));
     }
+}
+#[test]
+fn c01_history_srat() {
+    use acpi_tables::*;
     let mut t = srat::SRAT::new(OEM, TBL, 1);
     check_table("SRAT(new)", &ser(&t));
     for i in 0..300u32 {
@@ -770,6 +950,10 @@ fn c01_table_histories_checksum_and_length() {
         }
         check_table("SRAT", &ser(&t));
     }
+}
+#[test]
+fn c01_history_pptt() {
+    use acpi_tables::*;
     let mut t = pptt::PPTT::new(OEM, TBL, 1);
     check_table("PPTT(new)", &ser(&t));
     for i in 0..300u32 {
@@ -778,6 +962,10 @@ fn c01_table_histories_checksum_and_length() {
         t.add_processor(pptt::ProcessorNode::new(None, i).add_cache(&c).valid());
         check_table("PPTT", &ser(&t));
     }
+}
+#[test]
+fn c01_history_rhct() {
+    use acpi_tables::*;
     let mut t = rhct::RHCT::new(OEM, TBL, 1, 10_000_000);
     check_table("RHCT(new)", &ser(&t));
     let strings: [&'static str; 4] = ["rv64imafdc", "rv64i", "x", "rv64imafdch_zicbom"];
@@ -791,6 +979,10 @@ fn c01_table_histories_checksum_and_length() {
         let b = ser(&t);
         check_table("RHCT", &b);
     }
+}
+#[test]
+fn c01_history_cedt() {
+    use acpi_tables::*;
     let mut t = cedt::CEDT::new(OEM, TBL, 1);
     check_table("CEDT(new)", &ser(&t));
     for i in 0..300u32 {
@@ -802,6 +994,10 @@ fn c01_table_histories_checksum_and_length() {
         }
         check_table("CEDT", &ser(&t));
     }
+}
+#[test]
+fn c01_history_hmat() {
+    use acpi_tables::*;
     let mut t = hmat::HMAT::new(OEM, TBL, 1);
     check_table("HMAT(new)", &ser(&t));
     for i in 0..40u32 {
@@ -816,15 +1012,37 @@ fn c01_table_histories_checksum_and_length() {
         t.add_memory_side_cache(c);
         check_table("HMAT", &ser(&t));
     }
+}
+#[test]
+fn c01_history_tpm2() {
+    use acpi_tables::*;
     let mut t = tpm2::Tpm2::new(OEM, TBL, 1, tpm2::PlatformClass::Server, 0xfed4_0000, tpm2::StartMethod::Crb);
     check_table("TPM2(new)", &ser(&t));
     t.set_log_area(0x1_0000, 0x8000_0000_0000);
     check_table("TPM2(log area)", &ser(&t));
+    // a second set_log_area is either refused (leaving the table as it was) or leaves a consistent table
+    let before = ser(&t);
+    let r = catch_unwind(AssertUnwindSafe(|| { t.set_log_area(0x2_0000, 0x9000_0000_0000); }));
+    let after = ser(&t);
+    check_table("TPM2(log area set twice)", &after);
+    if r.is_err() { assert_eq!(after, before, "a refused set_log_area changed the table"); }
+    for class in [tpm2::PlatformClass::Client, tpm2::PlatformClass::Server] {
+        for sm in [tpm2::StartMethod::LegacyUse, tpm2::StartMethod::AcpiStart, tpm2::StartMethod::Mmio, tpm2::StartMethod::Crb, tpm2::StartMethod::CrbAndAcpiStart] {
+            let mut t = tpm2::Tpm2::new(OEM, TBL, 0xffff_ffff, class, u64::MAX, sm);
+            check_table("TPM2(new, every class/start method)", &ser(&t));
+            t.set_log_area(u32::MAX, u64::MAX);
+            check_table("TPM2(log area, every class/start method)", &ser(&t));
+        }
+    }
     check_table("TCPA client", &ser(&tpm2::TpmClient1_2::new(OEM, TBL, 1, 0xffff_0001, u64::MAX)));
     let s = tpm2::TpmServer1_2::new(OEM, TBL, 1);
     check_table("TCPA server", &ser(&s));
     let s = s.log_area(1, 2); check_table("TCPA server", &ser(&s));
     let s = s.active_low().edge_triggered().sci_gpe(3).gsi(4).bus_is_pnp().pci_sbdf(1, 2, 3, 4); check_table("TCPA server", &ser(&s));
+}
+#[test]
+fn c01_history_fixed() {
+    use acpi_tables::*;
     check_table("BERT", &ser(&bert::BERT::new(OEM, TBL, 1, 0x1000, u64::MAX)));
     let f = fadt::FADTBuilder::new(OEM, TBL, 1).dsdt_64(0xabcd_0000_1111).firmware_ctrl_32(7).flag(fadt::Flags::HwReducedAcpi).preferred_pm_profile(fadt::PmProfile::Tablet).finalize();
     check_table("FADT", &ser(&f));
@@ -832,6 +1050,10 @@ fn c01_table_histories_checksum_and_length() {
     assert_eq!(r.len(), 36); assert_eq!(bsum(&r[..20]), 0, "RSDP first 20 bytes"); assert_eq!(bsum(&r), 0, "RSDP all 36 bytes"); assert_eq!(le32_at(&r, 20), 36);
     assert_eq!(le32_at(&ser(&facs::FACS::new()), 4), 64);
     check_table("SPCR", &ser(&spcr::SPCR::sbi(OEM, TBL, 1)));
+}
+#[test]
+fn c01_history_rqsc() {
+    use acpi_tables::*;
     let mut q = rqsc::RQSC::new(OEM, TBL, 1);
     check_table("RQSC(new)", &ser(&q));
     for i in 0..20u32 {
@@ -985,6 +1207,22 @@ fn c04_entries_decode_to_the_callers_values() {
     let f = fadt::FADTBuilder::new(OEM, TBL, 9).firmware_ctrl_32(7).dsdt_64(0x9999_0000_0000).firmware_ctrl_32(8).finalize();
     let b = ser(&f); assert_eq!(le32_at(&b, 36), 8); assert_eq!(le64_at(&b, 132), 0); assert_eq!(le32_at(&b, 40), 0); assert_eq!(le64_at(&b, 140), 0x9999_0000_0000);
     let b = ser(&gas::GAS::new_pci_config(32, gas::AccessSize::DwordAccess, 31, 7, 0xfffc)); assert_eq!((b[0], b[1], b[2], b[3]), (2, 32, 0, 3)); assert_eq!(le64_at(&b, 4), (31u64 << 32) | (7 << 16) | 0xfffc);
+    // RHCT ISA string node (RISC-V RHCT spec table 3): type 0, length (padded to 2), revision 1,
+    // ISA length = strlen + NUL (the alignment pad is not counted), string, NUL, optional pad
+    for n in 1..=40usize {
+        let isa: String = "rv64imafdcvh_zicbom_zicbop_zicboz_zihintpause_sstc".chars().take(n).collect();
+        let mut t = rhct::RHCT::new(OEM, TBL, 1, 0x1234_5678_9abc);
+        let leaked: &'static str = Box::leak(isa.clone().into_boxed_str());
+        t.add_isa_string(leaked);
+        let b = ser(&t);
+        check_table("RHCT+ISA", &b);
+        assert_eq!(le32_at(&b, 36), 0); assert_eq!(le64_at(&b, 40), 0x1234_5678_9abc); assert_eq!(le32_at(&b, 48), 1, "node count"); assert_eq!(le32_at(&b, 52), 56, "node offset");
+        let o = 56;
+        let padded = (8 + n + 1 + 1) / 2 * 2;
+        assert_eq!(le16_at(&b, o), 0); assert_eq!(le16_at(&b, o + 2) as usize, padded, "ISA node length for a {}-character string", n); assert_eq!(le16_at(&b, o + 4), 1);
+        assert_eq!(le16_at(&b, o + 6) as usize, n + 1, "ISA length field for a {}-character string", n);
+        assert_eq!(&b[o + 8..o + 8 + n], isa.as_bytes()); assert!(b[o + 8 + n..].iter().all(|x| *x == 0)); assert_eq!(b.len(), o + padded);
+    }
 }
 fn xsdt_one(v: u64) -> acpi_tables::xsdt::XSDT { let mut t = acpi_tables::xsdt::XSDT::new(OEM, TBL, 1); t.add_entry(v); t }
 
@@ -1019,9 +1257,39 @@ fn c05_handles_are_offsets_of_their_nodes() {
     let i1 = t.add_isa_string("rv64imafdc_zicbom_zicboz");
     t.add_hart_info(rhct::HartInfoNode::new(1, &i1).with_cmo(&c0));
     t.add_hart_info(rhct::HartInfoNode::new(2, &i0).with_cmo(&c0));
+    // handles taken after hart-info nodes of both sizes (16 and 20 bytes) and after odd/even strings
+    let i2 = t.add_isa_string("rv64imafdc");
+    let c1 = t.add_cmo(rhct::CmoNode::new(2, 3, 4));
+    t.add_hart_info(rhct::HartInfoNode::new(3, &i2).with_cmo(&c1));
+    t.add_mmu_node(rhct::VirtualAddressScheme::Sv48);
+    let i3 = t.add_isa_string("rv64imafdcv");
+    t.add_hart_info(rhct::HartInfoNode::new(4, &i3));
+    let c2 = t.add_cmo(rhct::CmoNode::new(5, 6, 7));
+    t.add_hart_info(rhct::HartInfoNode::new(5, &i3).with_cmo(&c2));
     let b = ser(&t);
+    check_table("RHCT (handles)", &b);
     let es = walk("RHCT", &b, 56, 2, 2, 8);
     let starts: Vec<usize> = es.iter().map(|(o, _)| *o).collect();
+    // each hart's references resolve to *its own* ISA string / CMO node, not merely to some node
+    let want: [(u32, &str, Option<[u8; 3]>); 6] = [(0, "rv64i", None), (1, "rv64imafdc_zicbom_zicboz", Some([1, 1, 1])), (2, "rv64i", Some([1, 1, 1])),
+                                                   (3, "rv64imafdc", Some([2, 3, 4])), (4, "rv64imafdcv", None), (5, "rv64imafdcv", Some([5, 6, 7]))];
+    let mut harts = 0;
+    for (o, _) in &es {
+        if le16_at(&b, *o) != 65535 { continue; }
+        let (uid, isa, cmo) = want[harts]; harts += 1;
+        assert_eq!(le32_at(&b, o + 8), uid, "hart info order");
+        let r = le32_at(&b, o + 12) as usize;
+        assert!(r + 8 + isa.len() <= b.len() && le16_at(&b, r) == 0, "hart {}: ISA offset {} is not an ISA string node", uid, r);
+        assert_eq!(le16_at(&b, r + 6) as usize, isa.len() + 1, "hart {}: ISA offset {} names a different ISA node", uid, r);
+        assert_eq!(&b[r + 8..r + 8 + isa.len()], isa.as_bytes(), "hart {}: ISA offset {} names a different ISA node", uid, r);
+        assert_eq!(le16_at(&b, o + 6) as usize, 1 + cmo.is_some() as usize, "hart {}: number of offsets", uid);
+        if let Some(c) = cmo {
+            let r = le32_at(&b, o + 16) as usize;
+            assert!(r + 10 <= b.len() && le16_at(&b, r) == 1, "hart {}: CMO offset {} is not a CMO node", uid, r);
+            assert_eq!(&b[r + 7..r + 10], &c[..], "hart {}: CMO offset {} names a different CMO node", uid, r);
+        }
+    }
+    assert_eq!(harts, 6);
     for (o, _) in &es { if le16_at(&b, *o) == 65535 { let n = le16_at(&b, o + 6) as usize; for k in 0..n { let r = le32_at(&b, o + 12 + 4 * k) as usize; assert!(starts.contains(&r), "hart info at {}: offset {} is not the start of a node", o, r); assert_eq!(le16_at(&b, r), if k == 0 { 0 } else { 1 }, "hart info at {}: offset {} has the wrong node type", o, r); } } }
     let mut t = rimt::RIMT::new(OEM, TBL, 1);
     t.add_platform(rimt::Platform::new(1, "a".to_string(), None));
